@@ -109,20 +109,22 @@ impl Sampler for Multinomial {
 
 /// Sample an item from a vector of probabilities.
 ///
-/// Returns the index of the selected item, or `None` if the vector is empty
-/// or sums to less than 1.
+/// Returns the index of the selected item, which always has a non-zero
+/// probability, or `None` if the vector contains no non-zero probabilities.
 fn multinomial(rng: &mut fastrand::Rng, probs: &[f32]) -> Option<usize> {
     let target = rng.f32();
 
     let mut cum_prob = 0.;
     for (idx, &prob) in probs.iter().enumerate() {
         cum_prob += prob;
-        if target <= cum_prob {
+        if target < cum_prob {
             return Some(idx);
         }
     }
 
-    None
+    // Rounding errors can leave the cumulative probability slightly below
+    // `target`. Fall back to the last item with a non-zero probability.
+    probs.iter().rposition(|&prob| prob > 0.)
 }
 
 #[cfg(test)]
